@@ -335,6 +335,141 @@ func (w *morphWorld) genTransferTx(rng *rand.Rand, m *morphModel, ts int64, maxA
 	return build(vals)
 }
 
+// genMorphCross returns a short transaction sequence in which an account's ability to pay a
+// fee changes INSIDE the block, aimed with the balances of m (the state the sequence starts from):
+//   - fund: an empty or poor account E receives, by a transfer of the richest account, exactly
+//     fee / fee+1 / fee-1 (block invalid) / fee+spend / fee+spend-1 of ITS later transaction;
+//   - drain: the richest account D sends away everything but exactly fee / fee+1 / fee-1 (block
+//     invalid) / fee+spend of its own next transaction.
+//
+// Returns nil when the world has no account rich enough to aim with.
+func (w *morphWorld) genMorphCross(rng *rand.Rand, m *morphModel, ts int64, prices fees.Dimensions) ([]*chain.Transaction, string, error) {
+	rich := 0
+	for i, a := range w.Addrs {
+		if m.bal[a] > m.bal[w.Addrs[rich]] {
+			rich = i
+		}
+	}
+	if m.bal[w.Addrs[rich]] < 1<<30 || len(w.Addrs) < 2 {
+		return nil, "", nil
+	}
+	mk := func(si int, tos []codec.Address, vals []uint64) (*chain.Transaction, uint64, error) {
+		var acts []chain.Action
+		for i := range tos {
+			acts = append(acts, &actions.Transfer{To: tos[i], Value: vals[i], Memo: make([]byte, rng.IntN(3))})
+		}
+		base := chain.Base{Timestamp: (ts/1000 + 1 + int64(rng.IntN(20))) * 1000, ChainID: w.Rules.ChainID, MaxFee: 1 << 50}
+		tx, err := chainfx.Tx(base, acts, w.Factories[si])
+		if err != nil {
+			return nil, 0, err
+		}
+		var fee uint64
+		if u, ok := m.units.Units(tx); ok {
+			fee, _ = chainfx.ModelFee(prices, u)
+		}
+		return tx, fee, nil
+	}
+	other := func(not int) int {
+		i := rng.IntN(len(w.Addrs) - 1)
+		if i >= not {
+			i++
+		}
+		return i
+	}
+	// the later transaction: 1..3 small transfers
+	later := func(si int) (*chain.Transaction, uint64, uint64, error) {
+		n := 1 + rng.IntN(3)
+		tos := make([]codec.Address, n)
+		vals := make([]uint64, n)
+		var spend uint64
+		for i := range tos {
+			tos[i] = w.Addrs[other(si)]
+			vals[i] = uint64(1 + rng.IntN(5))
+			spend += vals[i]
+		}
+		tx, fee, err := mk(si, tos, vals)
+		return tx, fee, spend, err
+	}
+	aim := func(fee, spend uint64) (uint64, string) {
+		switch rng.IntN(8) {
+		case 0, 1:
+			return fee, "exact-fee"
+		case 2:
+			return fee + 1, "fee-plus1"
+		case 3:
+			if fee > 0 {
+				return fee - 1, "fee-minus1"
+			}
+			return fee, "exact-fee"
+		case 4, 5:
+			return fee + spend, "fee-plus-spend"
+		case 6:
+			return fee + spend - 1, "fee-plus-spend-minus1"
+		default:
+			return fee + spend + uint64(rng.IntN(1000)), "ample"
+		}
+	}
+	var poor []int
+	for i, a := range w.Addrs {
+		if i != rich && m.bal[a] < 1<<20 {
+			poor = append(poor, i)
+		}
+	}
+	if len(poor) > 0 && rng.IntN(4) != 0 {
+		e := poor[rng.IntN(len(poor))]
+		l, fee, spend, err := later(e)
+		if err != nil {
+			return nil, "", err
+		}
+		tgt, kind := aim(fee, spend)
+		have := m.bal[w.Addrs[e]]
+		if tgt <= have {
+			return nil, "", nil // already there: nothing to fund
+		}
+		tos, vals := []codec.Address{w.Addrs[e]}, []uint64{tgt - have}
+		if rng.IntN(3) == 0 { // the funding transfer is not the only action
+			tos = append([]codec.Address{w.Addrs[other(rich)]}, tos...)
+			vals = append([]uint64{uint64(1 + rng.IntN(9))}, vals...)
+			if tos[0] == w.Addrs[e] {
+				vals[1] -= min(vals[0], vals[1]-1)
+			}
+		}
+		f, _, err := mk(rich, tos, vals)
+		if err != nil {
+			return nil, "", err
+		}
+		st := "empty"
+		if have > 0 {
+			st = "poor"
+		}
+		return []*chain.Transaction{f, l}, "fund-" + st + "/" + kind, nil
+	}
+	// drain the richest account down to what its next transaction needs
+	l, fee, spend, err := later(rich)
+	if err != nil {
+		return nil, "", err
+	}
+	keep, kind := aim(fee, spend)
+	to := []codec.Address{w.Addrs[other(rich)]}
+	probe, dfee, err := mk(rich, to, []uint64{1})
+	if err != nil {
+		return nil, "", err
+	}
+	_ = probe
+	have := m.bal[w.Addrs[rich]]
+	if have < dfee+keep+1 || m.bal[to[0]]+(have-dfee-keep) < m.bal[to[0]] {
+		return nil, "", nil
+	}
+	d, dfee2, err := mk(rich, to, []uint64{have - dfee - keep})
+	if err != nil {
+		return nil, "", err
+	}
+	if dfee2 != dfee {
+		return nil, "", nil // memo length changed the fee: aim lost, skip
+	}
+	return []*chain.Transaction{d, l}, "drain/" + kind, nil
+}
+
 func describeTransferTx(tx *chain.Transaction) string {
 	sp := tx.Auth.Sponsor()
 	s := fmt.Sprintf("from %x..:", sp[1:5])
@@ -362,9 +497,18 @@ func allocOf(a codec.Address, v uint64) []*genesis.CustomAllocation {
 type slowView struct {
 	merkledb.View
 	salt uint64
+	slow map[string]time.Duration // these keys always take this long (read-only map)
+	only bool                     // delay nothing but the keys of `slow`
 }
 
 func (v *slowView) GetValue(ctx context.Context, key []byte) ([]byte, error) {
+	if d, ok := v.slow[string(key)]; ok {
+		time.Sleep(d)
+		return v.View.GetValue(ctx, key)
+	}
+	if v.only {
+		return v.View.GetValue(ctx, key)
+	}
 	h := v.salt
 	for _, b := range key {
 		h = (h ^ uint64(b)) * 1099511628211
